@@ -43,6 +43,8 @@ MAP = [
  ("IcyDraw loader indexes chunk payloads", "C02", "LAYER_n truncated / continuation chunk for unknown layer / string length beyond chunk: index out of bounds"),
  ("line insert / delete at a negative cursor row", "C02", ".ata file 1C 9C / 1C 9D: 'line out of range' assertion"),
  ("GIMP palette import drops every colour", "C16", "palette exported to GPL with an empty description imports as 0 colours"),
+ ("iCE Draw loader throws the SAUCE record away", "C11", "any .idf saved with SAUCE: Buffer::get_sauce() is None after loading"),
+ ("XBin compression loses the font page", "C06", "row [(' ',1,4,page0),(' ',1,4,page1),..]: compressed output decodes the second cell with font page 0"),
 ]
 
 def main():
